@@ -265,6 +265,10 @@ fn placed(name: &str, placement: &str) -> String {
         "nested-macro" => format!(".macro select_inner\n.device @0\n.endm\n.macro select_part\nselect_inner {}\n.endm\nselect_part\n", name),
         "if" => format!(".equ part_wanted = 1\n.if part_wanted\n.device {}\n.endif\n", name),
         "else" => format!(".ifdef no_such_symbol\n.device ATnothing99\n.else\n.device {}\n.endif\n", name),
+        // symbols named like those of the vendor part files, defined by the program itself with other
+        // values: the capacities are those of the device table, not what a program calls its constants
+        "equs-small" => format!(".device {}\n.equ SRAM_SIZE = 16\n.equ sram_start = 0x20\n.equ E2END = 3\n.equ FlashEnd = 0x1f\n.equ RAMEND = 0x2f\n.equ EEPROMEND = 3\n.equ XRAMEND = 0\n.equ FLASH_SIZE = 64\n.equ E2SIZE = 4\n.equ EEPROM_SIZE = 4\n.equ PAGESIZE = 1\n.equ IOEND = 0x1f\n", name),
+        "equs-large" => format!(".device {}\n.equ sram_size = 0x100000\n.equ SRAM_START = 0x20\n.equ e2end = 0xffffff\n.equ FLASHEND = 0x3fffff\n.equ RamEnd = 0xffffff\n.equ EEPROMEND = 0xffffff\n.equ XRAMEND = 0xffffff\n.equ FLASH_SIZE = 0x1000000\n.equ E2SIZE = 0x1000000\n.equ EEPROM_SIZE = 0x1000000\n.equ PAGESIZE = 4096\n", name),
         _ => format!(".device {}\n", name),
     }
 }
@@ -483,10 +487,12 @@ fn all_cases(ctx: &Ctx) -> (Vec<Case>, Vec<PartFile>, Vec<String>) {
         device_cases(Some(name), dev, "top", &mut rng, &mut cases);
         // the same limits with the device selected from expanded or conditional code
         let placement = ["macro", "if", "else", "nested-macro"][i % 4];
+        let equs = ["equs-small", "equs-large"][i % 2];
         device_cases(Some(name), dev, placement, &mut rng, &mut cases);
+        device_cases(Some(name), dev, equs, &mut rng, &mut cases);
         if ctx.tier == Tier::Thorough {
-            for pl in ["macro", "if", "else", "nested-macro"] {
-                if pl != placement {
+            for pl in ["macro", "if", "else", "nested-macro", "equs-small", "equs-large"] {
+                if pl != placement && pl != equs {
                     device_cases(Some(name), dev, pl, &mut rng, &mut cases);
                 }
             }
@@ -572,7 +578,7 @@ pub fn run(ctx: &Ctx) -> i32 {
     let _ = std::fs::remove_dir_all(scratch_dir());
     fw::finish(
         ctx,
-        "every device of DEVICES and the no-device default x {flash, EEPROM, RAM} x usage {capacity-1, capacity, capacity+1} x fill methods, the `.device` line at top level and (one placement per device in quick, all four in thorough) inside a called macro, a macro called by a macro with the name as argument, a taken .if and the .else of an untaken .ifdef (.org + one item, .org + two-word instruction straddling the limit, data runs of mixed widths, instruction runs, .byte reservations, .org in dseg/eseg, interleaved data segments); every shipped includes/*def.inc whose device is in the table built through build_file with capacities taken from its #pragma AVRPART MEMORY lines; RAM start via data-segment labels; unknown and repeated .device; usages of 2^16/2^31/2^32/2^33/2^40 (+0,1,8) units in every memory, which must fail although their low bits look legal; distinct_nontrivial = distinct (device, capacity source, memory, method, usage-capacity) tuples",
+        "every device of DEVICES and the no-device default x {flash, EEPROM, RAM} x usage {capacity-1, capacity, capacity+1} x fill methods, the `.device` line at top level and (one placement per device in quick, all four in thorough) inside a called macro, a macro called by a macro with the name as argument, a taken .if and the .else of an untaken .ifdef, or followed by `.equ` definitions of the part files' symbol names (SRAM_SIZE, E2END, FLASHEND, RAMEND ... in mixed case) with much smaller / much larger values (.org + one item, .org + two-word instruction straddling the limit, data runs of mixed widths, instruction runs, .byte reservations, .org in dseg/eseg, interleaved data segments); every shipped includes/*def.inc whose device is in the table built through build_file with capacities taken from its #pragma AVRPART MEMORY lines; RAM start via data-segment labels; unknown and repeated .device; usages of 2^16/2^31/2^32/2^33/2^40 (+0,1,8) units in every memory, which must fail although their low bits look legal; distinct_nontrivial = distinct (device, capacity source, memory, method, usage-capacity) tuples",
         &[
             "for table rows without a shipped part file and for the defaults only enforced == reported == table row can be checked",
             "PROG_FLASH in the part files is in bytes (two per flash word)",
